@@ -62,6 +62,8 @@ def run(tier, seed, replay=None):
         raise vlib.Inconclusive("; ".join(res["inconclusive"][:5]))
     planned = res["counters"].get("vectors", 0) * inst
     nsu = res["counters"].get("seq_uses", 0)
+    if not replay and not v.violations and res["counters"].get("polled_remote_units", 0) == 0:
+        raise vlib.Inconclusive("no signed remote unit was started on the executor and polled: %s" % res["counters"])
     if not replay and not v.violations and (res["counters"].get("seq_replays_refused", 0) == 0 or res["counters"].get("seq_valid_reuse", 0) == 0
                                             or res["counters"].get("seq_sameconn_tokenless_refused", 0) == 0 or res["counters"].get("seq_sameconn_own_token_accepted", 0) == 0
                                             or res["counters"].get("seq_not_established", 0) > res["counters"].get("sequences", 0) // 3):
@@ -78,7 +80,8 @@ def run(tier, seed, replay=None):
         "evaluations": res["evaluations"], "distinct_nontrivial": res["distinct"],
         "rule": "TLC enumerates every (command, connection kind, work-type class, token class) vector of ControlSession.tla part c15, plus submit with "
                 "five other spellings of the registered type names (capitalisation, surrounding white space, look-alike letters) judged by the rule "
-                "'refused as unknown type or held to the token rule of the type it runs as'; " +
+                "'refused as unknown type or held to the token rule of the type it runs as', and cancel/release/force-release/results on a signed remote unit "
+                "that really runs on the second daemon and whose status has been mirrored at least once (token rule fixed by its signwork flag); " +
                 ("quick: a seeded stratified subset (every one of the 90 command x connection x work-type cells with one token class rotating with "
                  "cell and seed plus valid and absent in the protected cells) is " if quick else "every vector is ") +
                 "executed %d time(s) on the real daemon with freshly built tokens (valid: RS512/RS256/PS384 by the configured key; expired; other audience "
